@@ -328,6 +328,26 @@ def check_world(prop, tier, seed, replay=None):
                                      ['verdict violation', 'a documented spelling of the expectation statements no longer compiles (harness/spelling/h_spelling.cpp)'],
                                      str(e).split('\n')[-30:])
             violations.append((path, False))
+    # 6b'. C08: what the caller receives — for reference returns that very object (harness/retref)
+    retref = None
+    if prop == 'C08' and not replay:
+        try:
+            rx = vlib.build_simple_harness('retref', std='c++17')
+            out, errs_rr = vlib.run_noinput(rx)
+            lines_rr = [l for l in out if l.startswith(('PASS', 'FAIL', 'DONE'))]
+            bad_rr = [l for l in lines_rr if l.startswith('FAIL')]
+            retref = dict(cases=len([l for l in lines_rr if l.startswith(('PASS', 'FAIL'))]), failed=len(bad_rr))
+            if bad_rr or errs_rr or not any(l.startswith('DONE') for l in lines_rr):
+                path = vlib.write_replay(prop, tier, seed, 'retref',
+                                         ['verdict violation', 'the caller does not receive the value / that very object of the RETURN expression',
+                                          'reproduce: g++ -std=c++17 -fsanitize=address,undefined -I/repo/include /verif/harness/retref/h_retref.cpp && ./a.out'],
+                                         (bad_rr or lines_rr[-5:]) + ([errs_rr[0][1][:1500]] if errs_rr else []))
+                violations.append((path, False))
+        except vlib.BuildError as e:
+            path = vlib.write_replay(prop, tier, seed, 'retref-build',
+                                     ['verdict violation', 'a documented form of RETURN / LR_RETURN for value, reference, const-reference or pointer returns '
+                                      'no longer compiles (harness/retref/h_retref.cpp)'], str(e).split('\n')[-30:])
+            violations.append((path, False))
     # 6c. C14: the intrusive ring itself — the real list_elem / list<T,Disposer> against the heap model (Model/Ring.lean)
     ring = None
     if prop == 'C14':
@@ -363,7 +383,7 @@ def check_world(prop, tier, seed, replay=None):
              % (cfg['enums'], cfg['profiles']),
         samples=['\n'.join(scripts[i][2]) for i in ([0, len(scripts) // 2, len(scripts) - 1] if scripts else [])],
         exhaustive=False,
-        generator_mix=dict(gen_stats), outcome_histogram=dict(hist), notes=notes, spelling_family=spelling, ring_correspondence=ring, threaded_tracer=threaded,
+        generator_mix=dict(gen_stats), outcome_histogram=dict(hist), notes=notes, spelling_family=spelling, return_identity_family=retref, ring_correspondence=ring, threaded_tracer=threaded,
         harness_tree=vlib.repo_hash(),
     )
     vlib.write_evidence(prop, tier, seed, 'proof', cov,
